@@ -179,6 +179,7 @@ pub fn check_root(root: &Root, classes: &[Class], depth: u8, h: &ZobristHasher, 
     let mut last_send: Option<Mv> = None;
     let mut final_of_depth: Vec<(u8, Mv)> = Vec::new();
     let mut pending_send: Option<Mv> = None;
+    let mut all_sends: Vec<(u8, Mv)> = Vec::new();
     let mut last_line_of_depth: Vec<(u8, Info, String)> = Vec::new();
     let mut solver = Solver::new(3_000_000);
     for e in &r.report.events {
@@ -195,6 +196,9 @@ pub fn check_root(root: &Root, classes: &[Class], depth: u8, h: &ZobristHasher, 
                 let m = mv_of(b).ok();
                 last_send = m;
                 pending_send = m;
+                if let Some(m) = m {
+                    all_sends.push((cur_depth, m));
+                }
             }
             Ev::Line(l) => {
                 let info = match parse_info(l, true) {
@@ -259,22 +263,38 @@ pub fn check_root(root: &Root, classes: &[Class], depth: u8, h: &ZobristHasher, 
             }
         }
     }
-    // mate in one is played (every completed iteration ends on a mating move)
+    // The move played is the last one handed back before the allowance expires, and the allowance
+    // can expire anywhere. So: once iteration 1 has finished, every move handed back on a
+    // mate-in-one root must mate; once iteration 2 has finished, no move handed back may allow a
+    // mate in one when that can be avoided (judged on iterations 3.. of this run; the final move
+    // of iterations 2 and 3 is covered as well).
     if classes.contains(&Class::MateIn1) {
         for (d, m) in &final_of_depth {
             if !is_checkmate(&apply(p, *m)) {
                 acc.violation(format!("C11|mate1-missed|{}|d{}", fen, d), format!("{}: a mate in one exists but after iteration {} the move standing is {} which does not mate", fen, d, m), case.clone());
             }
         }
+        for (d, m) in &all_sends {
+            acc.count("sends_judged_mate_in_1", 1);
+            if *d >= 2 && !is_checkmate(&apply(p, *m)) {
+                acc.violation(format!("C11|mate1-abandoned|{}|d{}|{}", fen, d, m), format!("{}: a mate in one exists and iteration 1 has finished, yet during iteration {} the search hands back {} which does not mate (it would be played if the allowance expired then)", fen, d, m), case.clone());
+            }
+        }
     }
-    // does not walk into a mate in one once the second iteration has finished
     if classes.contains(&Class::AvoidableMate) {
+        let mut s2 = Solver::new(2_000_000);
+        let mut losing: std::collections::HashMap<Mv, Option<bool>> = std::collections::HashMap::new();
+        let mut is_losing = |m: Mv| -> Option<bool> { *losing.entry(m).or_insert_with(|| s2.mate_in(&apply(p, m), 1)) };
         for (d, m) in &final_of_depth {
-            if *d >= 2 && *d <= 3 {
-                let q = apply(p, *m);
-                let mut s2 = Solver::new(500_000);
-                if s2.mate_in(&q, 1) == Some(true) {
-                    acc.violation(format!("C11|walks-into-mate|{}|d{}", fen, d), format!("{}: after iteration {} the move standing is {} which allows mate in one although other moves avoid it", fen, d, m), case.clone());
+            if *d >= 2 && *d <= 3 && is_losing(*m) == Some(true) {
+                acc.violation(format!("C11|walks-into-mate|{}|d{}", fen, d), format!("{}: after iteration {} the move standing is {} which allows mate in one although other moves avoid it", fen, d, m), case.clone());
+            }
+        }
+        for (d, m) in &all_sends {
+            if *d >= 3 {
+                acc.count("sends_judged_avoidable_mate", 1);
+                if is_losing(*m) == Some(true) {
+                    acc.violation(format!("C11|walks-into-mate-midway|{}|d{}|{}", fen, d, m), format!("{}: iteration 2 has finished, yet during iteration {} the search hands back {} which allows mate in one although other moves avoid it (it would be played if the allowance expired then)", fen, d, m), case.clone());
                 }
             }
         }
@@ -325,7 +345,7 @@ pub fn run(tier: Tier, seed: u64) -> i32 {
             }
         }
         if j == 0 {
-            for fen in ["6k1/5ppp/8/8/8/8/5PPP/3R2K1 w - -", "7k/5Q2/6K1/8/8/8/8/8 w - -", "7k/8/4K3/8/8/8/8/6Q1 w - -", "r1bqkb1r/pppp1ppp/2n2n2/4p2Q/2B1P3/8/PPPP1PPP/RNB1K1NR w KQkq -", "7k/5K2/8/8/8/8/8/6Q1 b - -", "k7/8/1K6/8/8/8/8/2Q5 w - -"] {
+            for fen in ["4r1k1/5ppp/8/8/3n4/8/5PPP/3R2K1 w - -", "6k1/5ppp/8/8/8/8/5PPP/3R2K1 w - -", "7k/5Q2/6K1/8/8/8/8/8 w - -", "7k/8/4K3/8/8/8/8/6Q1 w - -", "r1bqkb1r/pppp1ppp/2n2n2/4p2Q/2B1P3/8/PPPP1PPP/RNB1K1NR w KQkq -", "7k/5K2/8/8/8/8/8/6Q1 b - -", "k7/8/1K6/8/8/8/8/2Q5 w - -"] {
                 let p = Pos::parse_fen(fen).unwrap();
                 let cl = classify(&p);
                 roots.push((p, cl));
@@ -341,7 +361,7 @@ pub fn run(tier: Tier, seed: u64) -> i32 {
                     continue;
                 }
             };
-            let depth = if pieces <= 5 { 6 } else if pieces <= 10 { 4 } else { 3 };
+            let depth = if pieces <= 5 { 6 } else if pieces <= 10 { 5 } else { 4 };
             check_root(&root, &cl, depth, &h, &mut acc, j < 2 && i == 0);
         }
         acc
